@@ -117,6 +117,12 @@ func (c *Ctx) assignTo(lhs ast.Expr, v Val, st *State, define bool) {
 				v = Scalar{sc.T, ts}
 			}
 		}
+		if fv, isF := v.(FuncV); isF && fv.Lit != nil {
+			if c.funcLits == nil {
+				c.funcLits = map[types.Object]*ast.FuncLit{}
+			}
+			c.funcLits[obj] = fv.Lit
+		}
 		st.env[obj] = v
 	case *ast.IndexExpr:
 		bv := c.eval(l.X, st)
@@ -653,6 +659,10 @@ type modSet struct {
 }
 
 func (c *Ctx) modsOf(nodes ...ast.Node) modSet {
+	return c.modsOfV(map[*ast.FuncLit]bool{}, nodes...)
+}
+
+func (c *Ctx) modsOfV(visited map[*ast.FuncLit]bool, nodes ...ast.Node) modSet {
 	m := modSet{vars: map[types.Object]bool{}, fields: map[string]bool{}, regions: map[types.Object]bool{}, wholes: map[types.Object]bool{}}
 	var lhs func(e ast.Expr)
 	lhs = func(e ast.Expr) {
@@ -708,6 +718,24 @@ func (c *Ctx) modsOf(nodes ...ast.Node) modSet {
 					lhs(x.Value)
 				}
 			case *ast.CallExpr:
+				if id, ok := x.Fun.(*ast.Ident); ok {
+					if lit := c.funcLits[c.objOf(id)]; lit != nil && !visited[lit] {
+						visited[lit] = true
+						sub := c.modsOfV(visited, lit.Body)
+						for o := range sub.vars {
+							m.vars[o] = true
+						}
+						for o := range sub.wholes {
+							m.wholes[o] = true
+						}
+						for o := range sub.regions {
+							m.regions[o] = true
+						}
+						for f := range sub.fields {
+							m.fields[f] = true
+						}
+					}
+				}
 				// byte-slice arguments may be written by the callee
 				for _, a := range x.Args {
 					if id, ok := a.(*ast.Ident); ok {
@@ -1046,11 +1074,8 @@ func (c *Ctx) execRange(x *ast.RangeStmt, st *State) Flow {
 			} else {
 				k = c.valueOfID(st, c.defRaw("mk", "Int", "(select "+v.Keys+" "+j+")"), v.KeyT)
 			}
-			if s, ok := c.sortOf(v.ValT); ok {
-				e = Scalar{c.def("mv", s, "(select "+v.Vals+" "+j+")"), s}
-			} else {
-				e = c.valueOfID(st, c.defRaw("mv", "Int", "(select "+v.Vals+" "+j+")"), v.ValT)
-			}
+			// the value of the j-th entry is the map's value at the j-th key (one enumeration, values by lookup)
+			e = c.mapLookup(st, v, k, false)[0]
 			return k, e
 		}
 	case OpaqueV:
